@@ -47,6 +47,12 @@ EXTRA_PROGRAMS = [
     "|||\n\ttab indented\n\t\tdeeper\n|||",
     "|||\n  with\n\n  blank\n\n\n  lines\n|||",
     "|||-\n  chomped\n|||",
+    "|||\n  first\n    \n  \t\n  last\n|||",
+    "|||\n  trailing spaces   \n  \n   indented more\n\n|||",
+    "{ a: |||\n    x\n      \n    y\n  ||| }",
+    "@'verbatim\nwith newline and\ttab'",
+    "local a = [1, 2, 3, 4, 5, 6]; [a[1::2], a[::3], a[:2:], a[1:5:2], a[:], a[::]]",
+    "local s = 'abcdefgh'; s[2::3] + s[::2] + s[1::]",
     "{ a: |||\n    nested block\n  |||, b: 1 }",
     "local o = { a: 1 }; o { b: 2 } { c: 3 }",
     "{ a: 1 } + { a+: 2 } + { b: super.a }",
@@ -78,6 +84,19 @@ EXTRA_PROGRAMS = [
 
 def corpus():
     return list(dict.fromkeys(tokseq.VALID_PROGRAMS + EXTRA_PROGRAMS))
+
+
+def generated(seed, idx, count):
+    """closed programs from the type-directed generator (all string literal forms, slices,
+    comprehensions, objects with locals / asserts / methods ...), printed with minimal parentheses"""
+    from .gen import prog
+    from .ref import jast
+    from . import runner
+    out = []
+    for i in range(count):
+        g = prog.Gen(runner.rng_for(seed, "fmt-gen", idx, i), ill=0.0, err=0.01, max_depth=4)
+        out.append(jast.to_source(g.program()))
+    return out
 
 
 def wide_programs():
